@@ -56,6 +56,20 @@ def retsOf (cs : List CallObs) : List Ret :=
 def SpecObs (fm : Bool) (L : Nat) (cs : List CallObs) : Bool :=
   refusedIsErr cs && ownWriteB cs && (!fm || Spec L (retsOf cs))
 
+/-! ### start-ups as steps: what our own code does to the counter -/
+
+/-- "The counter is never moved backwards by our own code": `own` = for every write of the code
+    under test (a caller's write, or a write issued while a Service is being constructed) that
+    Consul APPLIED to the counter key, the counter's level before and after it. -/
+def ownNeverLowersB (own : List (Nat × Nat)) : Bool := own.all fun ba => decide (ba.1 ≤ ba.2)
+
+/-- Spec on the observation of a schedule with start-ups: the per-call clauses and (under
+    `ForeignMonotone`) uniqueness, real-time order and "above the initial level" over the WHOLE
+    history — whichever instance handed a number out, whenever it came up — and no write of our own
+    lowers the counter. -/
+def SpecStart (fm : Bool) (L : Nat) (cs : List CallObs) (own : List (Nat × Nat)) : Bool :=
+  SpecObs fm L cs && (!fm || ownNeverLowersB own)
+
 /-! ### environment level: the numbers an ENVIRONMENT hands to its successive start attempts -/
 
 /-- Every number is larger than every number before it in the list. -/
